@@ -120,11 +120,19 @@ def showStep (before : List Track) (op : Op) (r : List Track × Out) : String :=
        | none => "-|_|_|_"
        | some t => toString k ++ "|" ++ showPts t.pts ++ "|" ++ showTable t.table ++ "|" ++ showReads t)
 
-def showRun : List Track → List Op → List String
-  | _, [] => []
+def isError : Out → Bool
+  | .error _ => true
+  | _ => false
+
+/-- the replies of a session: it stops after the first operation that raises (as the harness does with the real code);
+`none` = an operation designates a track that is not in the pool -/
+def showRun : List Track → List Op → Option (List String)
+  | _, [] => some []
   | pool, op :: rest =>
     let r := applyOp pool op
-    showStep pool op r :: showRun r.1 rest
+    if r.2 == .noTrack then none
+    else if isError r.2 then some [showStep pool op r]
+    else (showRun r.1 rest).map (showStep pool op r :: ·)
 
 def handle (cmd : String) (args : List String) : String :=
   match cmd, args with
@@ -132,8 +140,9 @@ def handle (cmd : String) (args : List String) : String :=
     match (splitTok ts ';').mapM (fun t => if t.startsWith "T" then (pts? (t.drop 1).toString).map (fun p => (⟨p, []⟩ : Track)) else none),
           (splitTok os ';').mapM op? with
     | some pool, some ops =>
-      if (runOps pool ops).any (fun r => r.2 == .noTrack) then "bad-request"
-      else joinWith ";" (showRun pool ops)
+      match showRun pool ops with
+      | some l => joinWith ";" l
+      | none => "bad-request"
     | _, _ => "bad-request"
   | "radix", [ds] =>
     match intListList? ds with
